@@ -736,7 +736,7 @@ class Explorer:
                 if not stack:
                     self.finish_path(st, ret, "return")
                     return
-                st.effects.append(("exit", fn["path"]))
+                st.effects.append(("exit", fn["path"], ret))
                 caller = stack[-1]
                 dest, target, cont = fr.ret_to
                 if cont is not None:
@@ -1117,7 +1117,7 @@ class Explorer:
             src = args[1]
             if tgt[0] == "ref":
                 cur = self.read_loc(st, tgt[1], tgt[2])
-                items = src[1] if src[0] == "vec" else ((("evs?", src),) if "GenericEvent" in info["targs"][0] else (("nested", src),))
+                items = src[1] if src[0] in ("vec", "arr") else ((("evs?", src),) if "GenericEvent" in info["targs"][0] else (("nested", src),))
                 base = cur[1] if cur[0] == "vec" else (("evs?", cur),)
                 self.write_loc(st, tgt[1], tgt[2], ("vec", base + items))
                 for it in items:
